@@ -2,6 +2,7 @@ CONSTANTS
   P = 3
   Precs = {3, 5, 7}
   NCands = 2
+  Enclosed = FALSE
 INIT Init
 NEXT Next
 INVARIANT FoldWellTiled
